@@ -32,7 +32,9 @@ def _run(cmd, inp=None, timeout=None):
 
 
 def batch_z3(obls, per_query_ms=3000, solver=Z3NEW):
-    """Decide a list of obligations in one solver process. Returns list of verdicts ('unsat'|'sat'|'unknown')."""
+    """Decide a list of obligations in one solver process. Returns list of verdicts ('unsat'|'sat'|'unknown').
+    The soft per-query timeout is not always honoured by the nonlinear engine, so the whole session also has a hard
+    wall limit; answers printed before the limit are kept, the rest is 'unknown' (decided individually afterwards)."""
     if not obls:
         return [], 0.0
     parts = ["(set-logic ALL)\n"]
@@ -41,7 +43,8 @@ def batch_z3(obls, per_query_ms=3000, solver=Z3NEW):
         parts.append(strip_logic(o["smt"]))
         parts.append("(check-sat)\n(pop 1)\n")
     text = "".join(parts)
-    out, dt, to = _run([solver, "-in", "-t:%d" % per_query_ms], inp=text, timeout=max(60, len(obls) * per_query_ms / 1000.0 * 1.5 + 30))
+    hard = 20 + 0.25 * len(obls)
+    out, dt, to = _run([solver, "-in", "-t:%d" % per_query_ms], inp=text, timeout=hard)
     verdicts = []
     err = False
     for line in out.splitlines():
@@ -50,10 +53,14 @@ def batch_z3(obls, per_query_ms=3000, solver=Z3NEW):
             verdicts.append("unknown" if line == "timeout" else line)
         elif line.startswith("(error"):
             err = True
-    if err or len(verdicts) != len(obls):
+    if err:
         # something went wrong in the session: nothing from it is believed
         return ["unknown"] * len(obls), dt
-    return verdicts, dt
+    if len(verdicts) < len(obls):
+        if not to:
+            return ["unknown"] * len(obls), dt
+        verdicts = verdicts + ["unknown"] * (len(obls) - len(verdicts))
+    return verdicts[:len(obls)], dt
 
 
 def solver_cmds(theory, timeout_s):
@@ -260,7 +267,7 @@ def margin_extra(obl):
     return "".join(ex)
 
 
-def decide_all(obls, tier, workers=16, log=None, models=True, on_sat=None, stop_after=6, cap=None):
+def decide_all(obls, tier, workers=16, log=None, models=True, on_sat=None, stop_after=6, cap=None, batch=True):
     """Decide every obligation. Mutates each obligation dict with 'verdict', 'solver', 'seconds', 'model'.
     `on_sat(o) -> bool` is called for every obligation that came back `sat` with a model (it replays the model natively
     and returns True for a confirmed, unlisted violation); once `stop_after` violations are confirmed the remaining
@@ -270,7 +277,7 @@ def decide_all(obls, tier, workers=16, log=None, models=True, on_sat=None, stop_
     # pass 1: batches per (case, theory) with a short per-query limit
     groups = {}
     for o in obls:
-        if o["theory"] == "fp" and not o.get("trivial"):
+        if not batch or (o["theory"] == "fp" and not o.get("trivial")):
             # bit-blasting queries do not belong in the short-timeout batch: straight to the portfolio
             o.update({"verdict": "unknown", "solver": None, "seconds": 0.0, "model": {}})
             continue
